@@ -32,9 +32,14 @@ Modelling decisions
   Go code subtracts (`RegisterTrigger`) or converts (`BlockTimeEvent.GetEventOrder`);
 * actions are messages routed to their real handlers.  Three kinds are modelled: a bank
   `MsgSend`, a `MsgDestroyTriggerRequest`, and `boom` = a `MsgCreateTriggerRequest` without
-  authorities, whose handler panics at `msg.GetAuthorities()[0]` (msg_server.go:37).  Whether
-  an action runs out of the trigger's gas is an *input* (`oog`), observed from the
-  implementation; everything else is computed.
+  authorities, whose handler panics at `msg.GetAuthorities()[0]` (msg_server.go:37).  How much
+  gas the handler of an action consumes is an *input* (`cost`), observed from the implementation
+  (the store gas schedule of the action handlers is not modelled).  The trigger's gas meter is
+  modelled: `runActions` gives all actions of a trigger ONE meter of the stored (prepaid) limit
+  (trigger_dispatcher.go:52-54) and an action whose consumption takes the meter above the limit
+  panics out of gas (`gasOog`); everything else is computed;
+* time is in unix *nanoseconds* (`time.Time` compared with `Equal/After/Before`, i.e. at full
+  precision: event_detector.go:73-77, trigger.go:142).
 -/
 import PvModel.Util
 
@@ -50,7 +55,7 @@ def SetGasLimitCost : Nat := 2510
 def MaximumTriggerGas : Nat := 2000000
 def U64 : Nat := 18446744073709551616
 
-/-- `TriggerEventI` implementations (trigger.pb.go). Time is in unix seconds. -/
+/-- `TriggerEventI` implementations (trigger.pb.go). Time is in unix nanoseconds. -/
 inductive Event where
   | tx (name : String) (attrs : List (String × String))
   | height (h : Nat)
@@ -71,7 +76,7 @@ structure Trigger where
   actions : List Action
   deriving DecidableEq, Repr, Inhabited
 
-/-- `QueuedTrigger` (block time and height of detection, the trigger). -/
+/-- `QueuedTrigger` (block time (ns) and height of detection, the trigger). -/
 structure QItem where
   trigger : Trigger
   time : Nat
@@ -137,7 +142,7 @@ def Event.pfx : Event → String
 def Event.order : Event → Nat
   | .tx _ _ => 0
   | .height h => h
-  | .time t => (t * 1000000000) % U64
+  | .time t => t % U64
 
 def listenerOf (t : Trigger) : Listener := ⟨norm t.event.pfx, t.event.order, t.id⟩
 
@@ -156,7 +161,8 @@ def Event.validate : Event → Bool
   | .tx n attrs => norm n != "" && attrs.all fun a => norm a.1 != ""
   | _ => true
 
-/-- `ValidateContext` (trigger.go:99,119,142): height/time must be strictly in the future. -/
+/-- `ValidateContext` (trigger.go:99,119,142): height/time must be strictly in the future
+(times at full, nanosecond, precision). -/
 def Event.validateContext (height time : Nat) : Event → Bool
   | .tx _ _ => true
   | .height h => !(h ≤ height)
@@ -447,8 +453,21 @@ def handleMsg (s : State) : Action → Except Err State
   | .kill auth id => destroyTrigger s auth id
   | .boom => .error .panic
 
+/-- Gas the first `n` actions of a trigger consume on its meter (`cost i` = what the handler of
+action `i` consumes; `handleMsgs` itself consumes nothing between handlers). -/
+def prefixCost (cost : Nat → Nat) : Nat → Nat
+  | 0 => 0
+  | n + 1 => prefixCost cost n + cost n
+
+/-- The trigger's gas meter (`storetypes.NewGasMeter(gasLimit)`, one per trigger, shared by all its
+actions: trigger_dispatcher.go:52-54, 91): action `i` panics out of gas exactly when the
+consumption of actions `0 … i` together exceeds the limit (`ConsumeGas` panics when
+`consumed > limit`; `safeHandle` turns the panic into an error). -/
+def gasOog (limit : Nat) (cost : Nat → Nat) (i : Nat) : Bool := decide (limit < prefixCost cost (i + 1))
+
 /-- `handleMsgs` + `safeHandle` on the cached state: run the actions in order; stop at the first
-error, recovered panic, or out-of-gas (`oog i` = action `i` exhausted the trigger's gas meter).
+error, recovered panic, or out-of-gas (`oog i` = action `i` exhausted the trigger's gas meter;
+`runActions` is called with `gasOog limit cost`).
 Returns the per-action outcomes and the cached state if all succeeded. -/
 def handleMsgs (oog : Nat → Bool) : State → List Action → Nat → List Outcome × Option State
   | s, [], _ => ([], some s)
@@ -474,9 +493,11 @@ structure Exec where
   actions : List Action
   deriving DecidableEq, Repr, Inhabited
 
-/-- the loop of `ProcessTriggers`: `n` = actions still allowed this block, `gasConsumed` as in Go.
+/-- the loop of `ProcessTriggers`: `n` = actions still allowed this block, `gasConsumed` as in Go;
+`cost id i` = gas the handler of action `i` of trigger `id` consumes.  The actions run on one gas
+meter of the stored limit `g` (`runActions(ctx, gasLimit, actions)`).
 `none` = a panic (`GetGasLimit` / `getQueueItem` on a missing key). -/
-def processLoop (oog : Nat → Nat → Bool) : Nat → Nat → State → Option (State × List Exec)
+def processLoop (cost : Nat → Nat → Nat) : Nat → Nat → State → Option (State × List Exec)
   | 0, _, s => some (s, [])
   | n + 1, gasConsumed, s =>
     if queueIsEmpty s then some (s, [])
@@ -490,14 +511,14 @@ def processLoop (oog : Nat → Nat → Bool) : Nat → Nat → State → Option 
           if g + gasConsumed > MaximumQueueGas then some (s, [])
           else
             let s1 := removeGasLimit (dequeue s) id
-            let r := runActions s1 item.trigger.actions (oog id)
-            match processLoop oog n (gasConsumed + g) r.2.2 with
+            let r := runActions s1 item.trigger.actions (gasOog g (cost id))
+            match processLoop cost n (gasConsumed + g) r.2.2 with
             | some (s', rest) => some (s', ⟨id, g, r.1, r.2.1, item.trigger.actions⟩ :: rest)
             | none => none
 
 /-- `ProcessTriggers` (the BeginBlocker). -/
-def processTriggers (s : State) (oog : Nat → Nat → Bool) : Option (State × List Exec) :=
-  processLoop oog MaximumActions 0 s
+def processTriggers (s : State) (cost : Nat → Nat → Nat) : Option (State × List Exec) :=
+  processLoop cost MaximumActions 0 s
 
 /-! ## histories -/
 
@@ -506,7 +527,7 @@ inductive Op where
   | pay (frm to : Addr) (amt : Nat)                     -- a bank `MsgSend` transaction
   | create (m : CreateMsg) (rem height time : Nat)      -- a `MsgCreateTriggerRequest` transaction
   | destroy (auth : Addr) (id : Nat)                    -- a `MsgDestroyTriggerRequest` transaction
-  | beginBlock (oog : Nat → Nat → Bool)                 -- BeginBlocker
+  | beginBlock (cost : Nat → Nat → Nat)                 -- BeginBlocker (gas used per trigger id, action)
   | endBlock (events : List AbciEvent) (height time : Nat)  -- EndBlocker
 
 inductive Out where
@@ -535,8 +556,8 @@ def step (s : State) : Op → State × Out
     match destroyTrigger s auth id with
     | .ok s' => (s', .destroyed id)
     | .error e => (s, .rejected e)
-  | .beginBlock oog =>
-    match processTriggers s oog with
+  | .beginBlock cost =>
+    match processTriggers s cost with
     | some (s', xs) => (s', .executed xs)
     | none => (s, .panicked)
   | .endBlock evs h t =>
